@@ -78,13 +78,17 @@ func (c *Collection) writeWithMeta(key string, body []byte, xattrs []byte, oldCa
 			revSeqNo:   revSeqNo,
 		}
 		return c.storeDocument(txn, e)
+	}, func() {
+		if e != nil {
+			c._postNewEvent(e)
+		}
 	})
 
 	if err != nil {
 		return err
 	}
 	if e != nil {
-		c.postNewEvent(e)
+		c.bucket.expManager.scheduleExpirationAtOrBefore(e.exp)
 	}
 	return nil
 }
